@@ -1253,3 +1253,71 @@ Proof.
   intros H f fn r c j Hin. rewrite forallb_forall in H. specialize (H _ Hin). simpl in H.
   destruct r, c, j; simpl in H; try discriminate; auto.
 Qed.
+
+
+(* ====== vhost muxer hand-off ====== *)
+
+Definition vh_ok (cfg : vhcfg) (thr : option vhpc) (f : vhfate) : Prop :=
+  match thr with
+  | Some VhLookup => f = VhNew
+  | Some VhSending => f = VhPending \/ f = VhHandled
+  | Some VhEnd => f = VhHandled \/ f = VhClosedNoRoute \/ f = VhClosedOnFail
+  | _ => f = VhNoConn
+  end.
+Definition VhInv (cfg : vhcfg) (s : vhst) : Prop := forall u, vh_ok cfg (vs_thr s u) (vs_fate s u).
+
+Lemma vh_init_inv cfg : VhInv cfg (v_init cfg).
+Proof. intros u. simpl. destruct (nth_error (vc_reqs cfg) u) as [[]|]; simpl; auto. Qed.
+
+Lemma vh_step_inv cfg s t : VhInv cfg s -> VhInv cfg (v_step cfg s t).
+Proof.
+  intros I u. pose proof (I u) as Iu. pose proof (I t) as It. unfold v_step.
+  destruct (vs_thr s t) as [[]|] eqn:Et; simpl in It; auto.
+  - destruct (vs_routed s); simpl; unfold upd; destruct (Nat.eqb_spec u t); subst; simpl; auto.
+  - destruct (vs_fate s t) eqn:Ef; try (destruct It; discriminate);
+      try (destruct (vs_chclosed s && vc_close_releases cfg); simpl; unfold upd; auto;
+           destruct (Nat.eqb_spec u t); subst; simpl; auto; fail).
+  - destruct (vs_chclosed s); simpl.
+    + unfold upd. destruct (Nat.eqb_spec u t); subst; simpl; auto.
+    + pose proof (I (vc_pick cfg (vs_tick s))) as Ip.
+      destruct (vs_fate s (vc_pick cfg (vs_tick s))) eqn:Ef; auto. simpl. unfold upd.
+      destruct (Nat.eqb_spec u (vc_pick cfg (vs_tick s))); subst; auto.
+      unfold vh_ok in *. destruct (vs_thr s (vc_pick cfg (vs_tick s))) as [[]|]; try congruence; auto;
+        destruct Ip as [H|[H|H]]; congruence.
+  - simpl. unfold upd. destruct (Nat.eqb_spec u t); subst; simpl; auto.
+  - simpl. unfold upd. destruct (Nat.eqb_spec u t); subst; simpl; auto.
+Qed.
+
+Lemma vh_exec_inv cfg sched : VhInv cfg (v_exec cfg sched).
+Proof.
+  unfold v_exec, v_run. generalize (vh_init_inv cfg). generalize (v_init cfg).
+  induction sched as [|t r IH]; simpl; intros s I; auto. apply IH, vh_step_inv, I.
+Qed.
+
+(* every schedule of handle goroutines, the accept loop and Close: a routed connection that is still in the
+   hand-off has its handle goroutine standing in the send; a handle goroutine that has ended left the
+   connection delivered to Accept, closed for want of a route, or closed after a failed hand-off *)
+Theorem vhost_conn_delivered_or_closed cfg sched u :
+  let s := v_exec cfg sched in
+  (vs_fate s u = VhPending -> vs_thr s u = Some VhSending) /\
+  (vs_thr s u = Some VhEnd ->
+     vs_fate s u = VhHandled \/ vs_fate s u = VhClosedNoRoute \/ vs_fate s u = VhClosedOnFail).
+Proof.
+  intros s. pose proof (vh_exec_inv cfg sched u) as I. fold s in I. unfold vh_ok in I. split.
+  - intros H. destruct (vs_thr s u) as [[]|]; rewrite H in I; try discriminate; auto;
+      destruct I as [I|[I|I]]; discriminate.
+  - intros H. rewrite H in I. exact I.
+Qed.
+
+(* ... and the send never stays blocked: Close releases it (the dispatcher then closes the connection), and a
+   running accept loop takes the sender its receive picks *)
+Theorem vhost_pending_progress cfg s u :
+  vs_fate s u = VhPending -> vs_thr s u = Some VhSending ->
+  (vc_close_releases cfg = true -> vs_chclosed s = true -> vs_fate (v_step cfg s u) u = VhClosedOnFail) /\
+  (forall t, vs_thr s t = Some VhLRun -> vs_chclosed s = false -> vc_pick cfg (vs_tick s) = u ->
+     vs_fate (v_step cfg s t) u = VhHandled).
+Proof.
+  intros Hf Ht. split.
+  - intros Hr Hc. unfold v_step. rewrite Ht, Hf, Hc, Hr. simpl. unfold upd. rewrite Nat.eqb_refl. auto.
+  - intros t Hl Hc Hp. unfold v_step. rewrite Hl, Hc, Hp, Hf. simpl. unfold upd. rewrite Nat.eqb_refl. auto.
+Qed.
